@@ -1,6 +1,7 @@
 //! vharness: property-based testing / fuzzing harness for facebook/opaque-ke.
 //! Links the production (`cfg(not(test))`) build of the crate at `/repo`.
 
+pub mod decoders;
 pub mod fieldmap;
 pub mod flow;
 pub mod gen;
